@@ -4,16 +4,26 @@ import (
 	"testing"
 
 	"pgregory.net/rapid"
+	"verif/elem"
 	"verif/vk"
 )
 
-var kindsA = []string{"set", "set", "reorder", "reorderTo", "pop", "pop", "pop", "removeEdge", "removeEdge", "peek", "each", "clear", "drain", "update"}
+var kindsA = []string{"set", "set", "setSame", "reorder", "reorderTo", "pop", "pop", "pop", "removeEdge", "removeEdge", "peek", "each", "clear", "drain", "update"}
 var kindsB = []string{"addSafe", "addSafe", "addSafe", "addSafe", "addMax", "addMax", "pop", "pop", "removeSafe", "removeSafe", "removeEdge",
-	"set", "reorder", "peek", "each", "clear", "drain", "update"}
+	"set", "setSame", "reorder", "peek", "each", "clear", "drain", "update"}
 var kindsG = []string{"add", "add", "add", "add", "add", "addMax", "pop", "pop", "pop", "remove", "remove", "remove", "removeEdge",
-	"set", "reorder", "reorderTo", "peek", "each", "clear", "drain", "update", "removeElem"}
+	"set", "setSame", "reorder", "reorderTo", "peek", "each", "clear", "drain", "update", "removeElem"}
 var kindsPos = []string{"add", "add", "add", "add", "addMax", "pop", "pop", "remove", "removeElem", "removeElem", "removeElem", "removeEdge",
-	"set", "reorder", "reorder", "reorderTo", "reorderTo", "peek", "clear", "update", "update"}
+	"set", "setSame", "reorder", "reorder", "reorderTo", "reorderTo", "peek", "clear", "update", "update"}
+
+// genElemKind draws the element kind: half of the cases keep the harness's
+// own Elem (""), the rest are spread evenly over ElemKinds.
+func genElemKind(t *rapid.T) string {
+	if rapid.Bool().Draw(t, "elemOwn") {
+		return ""
+	}
+	return rapid.SampledFrom(ElemKinds).Draw(t, "elem")
+}
 
 func genVal(t *rapid.T, label string) int {
 	if rapid.Bool().Draw(t, label+"Small") {
@@ -147,6 +157,7 @@ func genHeapCase(pos bool) func(t *rapid.T) HeapCase {
 			ops = append(ops, c.Ops[mid:]...)
 			c.Ops = ops
 		}
+		c.Elem = genElemKind(t)
 		return c
 	}
 }
@@ -182,12 +193,21 @@ func TestC05Sort(t *testing.T) {
 				c.Spare = rapid.SampledFrom([]int{1, 62, 254, 1000, 4000}).Draw(t, "spareN")
 			}
 		}
+		c.Elem = genElemKind(t)
 		return c
 	}, runSort)
 }
 
+// sortxKinds are the element kinds the exhaustive leg cycles through; the
+// kinds behind the split keep their identities in a table that is shared by
+// the workers and only grows, so they are left to the shorter sequences.
+var sortxKinds = []string{elem.Int, elem.Str, elem.Wide, elem.Bytes, elem.Ptr, elem.Any}
+
+const sortxTableFree = 4
+
 // TestC05SortExhaustive: every sequence over {0,1,2} up to a length bound,
-// both directions.
+// both directions, as a slice of Elems and once more as a slice of another
+// element kind (cycling with the case index).
 func TestC05SortExhaustive(t *testing.T) {
 	h := vk.Start(t, "C05", "sortx")
 	maxLen := h.Pick(8, 11)
@@ -221,22 +241,25 @@ func TestC05SortExhaustive(t *testing.T) {
 			vs[i] = x % 3
 			x /= 3
 		}
-		for _, d := range []bool{false, true} {
-			c := SortCase{Vs: vs, Desc: d}
-			o := &vk.Obs{}
-			slots[w].Enter(c)
-			msg := vk.Guard(func() string { return runSort(c, o) })
-			slots[w].Leave()
-			if msg != "" {
-				h.Fail(c, msg)
-				return
-			}
-			tallies[w].Evals++
-			if o.NT {
-				tallies[w].NT++
-			}
-			if idx%5000 == 77 && !d {
-				h.Sample(c, o.NT)
+		kinds := sortxKinds
+		if l > 8 {
+			kinds = kinds[:sortxTableFree]
+		}
+		for _, kind := range []string{"", kinds[idx%len(kinds)]} {
+			for _, d := range []bool{false, true} {
+				c := SortCase{Vs: vs, Desc: d, Elem: kind}
+				o := &vk.Obs{}
+				slots[w].Enter(c)
+				msg := vk.Guard(func() string { return sortCase(c, o, false) })
+				slots[w].Leave()
+				if msg != "" {
+					h.Fail(c, msg)
+					return
+				}
+				tallies[w].AddObs(o)
+				if idx%5000 == 77 && !d {
+					h.Sample(c, o.NT)
+				}
 			}
 		}
 	})
